@@ -14,7 +14,9 @@ MODEL_MODULES = ['TenpyModel.Util.J', 'TenpyModel.Ops.Sym', 'TenpyModel.Ops.Term
                  'TenpyModel.Ops.MPO', 'TenpyModel.C11.ExtEnv', 'TenpyModel.C11.ExtStruct', 'TenpyModel.C11.ExtDecide',
                  'TenpyModel.C11.ExtTerms']
 PROPS_MODULES = ['TenpyModel.C11.Props',
-                 'TenpyModel.C11.Props2']
+                 'TenpyModel.C11.Props2',
+                 'TenpyModel.C11.PropsExtEnv', 'TenpyModel.C11.PropsExtStruct', 'TenpyModel.C11.PropsExtDecide',
+                 'TenpyModel.C11.PropsExtGQ']
 LEAN_MODULES = PROPS_MODULES
 LEVEL = 'proof'
 BUDGET = {'quick': 200, 'thorough': 1500}
@@ -28,11 +30,20 @@ RULE = ('finite and infinite MPOs (a) from random W tensors over matrix units (d
         '(dense numpy): sum, adjoint, is_hermitian/is_equal decisions, overlap/distance = Frobenius, alpha+beta*A, '
         'to_TermList round trip, expectation value and variance on a random state, apply by SVD/zip_up/variational with '
         'the reported truncation error as bound, U_I/U_II error ratios at t, t/2, t/4 (test level).  Non-trivial = bond '
-        'dimension > 2 somewhere; distinct by content hash.')
+        'dimension > 2 somewhere; distinct by content hash.  Extension stream (harness/c11_ext.py, kind ext): the same two '
+        'generators (plus charged sites, sums A+B with markers -1, dropped outer markers) with random max_range / '
+        'explicit_plus_hc attributes and a random subset of operations: MPOEnvironment.full_contraction at every cut / '
+        'expectation_value / variance on non-canonical integer MPS (bra = ket or not), sort_legcharges, group_sites(n), '
+        'enlarge_mps_unit_cell, extract_segment, overlap / distance / is_equal / is_hermitian on windows of infinite MPOs '
+        '(different unit cells, all flag combinations), to_TermList in the matrix-unit basis (random start, max_range, '
+        'ignore) - each compared exactly with the Lean models C11/Ext*.lean (also which inputs are rejected) and with a '
+        'dense oracle.')
 TRUSTED = ['Lean 4.33 kernel; axioms of every C11_* theorem ⊆ {propext, Classical.choice, Quot.sound}',
            'hand-written model lean/TenpyModel/Ops/MPO.lean tied to tenpy/networks/mpo.py by this run (tensors compared exactly)',
            'dense oracle: own contraction of the W tensors + numpy',
-           'compression methods and U_II: only bounded / measured, not modelled']
+           'compression methods and U_II: only bounded / measured, not modelled',
+           'hand-written models lean/TenpyModel/C11/Ext{Env,Struct,Decide,Terms}.lean tied to mpo.py / mps.py (environments) '
+           'by the ext stream of this run']
 ASSUMPTIONS = ['entries are small Gaussian integers / dyadic rationals: float arithmetic of the implementation is exact',
                'matrix units as local operator basis: formal sum = dense operator']
 
@@ -73,6 +84,9 @@ def case_hist(case):
 
 def shrink(case, sig):
     """drop terms / partner while the same property signature persists (oracle only)"""
+    if case.get('kind') == 'ext':
+        from harness import c11_ext
+        return c11_ext.shrink(case, sig)
     cur = case
 
     def fails_same(c):
